@@ -44,7 +44,7 @@ class PeekCheck:
         if adt in self.peek_trees:
             return self.peek_trees[adt]
         self.peek_trees[adt] = None
-        b = self.m.body_inlined(self.peek_fn[adt])
+        b = self.m.body_inlined(self.peek_fn[adt], only_mut=True)
         if b is None:
             return None
         trees = []
@@ -187,7 +187,7 @@ class PeekCheck:
     def _check(self, adt):
         if adt not in self.peek_fn or adt not in self.next_fn:
             return 'no peek/next pair'
-        nb = self.m.body_inlined(self.next_fn[adt])
+        nb = self.m.body_inlined(self.next_fn[adt], only_mut=True)
         if nb is None:
             return 'no body'
         P = self.peek_tree(adt)
